@@ -30,9 +30,9 @@ def size_bytes(ip, m):
 
 def be(ip, b):
     """big-endian value of a byte string"""
-    if isinstance(b, SByteList):
-        return mkint(sym.bval(b.t))
-    return mkint(sym.bval(Bt(b)))
+    t = b.t if isinstance(b, SByteList) else Bt(b)
+    sym.wf_upper(t)
+    return mkint(sym.bval(t))
 
 
 def le(ip, b):
@@ -488,3 +488,12 @@ def entropy_calls(ip):
 
 def entropy_only_via(ip, callee):
     return all(str(n) == "callee:" + callee for _, n in ip.ctx.entropy_log)
+
+
+def gid(ip, g):
+    return SInt(_gid(ip, g))
+
+
+def msg_of(ip, s):
+    """element a started session sends"""
+    return msg_elem(ip, s, ip.getattr(s, "xy_scalar", True))
